@@ -2539,6 +2539,27 @@ fn gen_scripts(r: &mut Rng, thorough: bool) -> Vec<Script> {
                 }
             }
         }
+        // ---- (h) again: BODY sizes and frame totals around powers of two up to 16 MiB (an internal "large body" threshold
+        //      may sit at any of them): 4 MiB-1 / 4 MiB / 4 MiB+1 on every endpoint in quick, the rest in thorough
+        {
+            let w0 = |kind: char, size: usize| Wr { kind, size, ..Default::default() };
+            let k = if ep <= 2 { 'n' } else { 'r' };
+            let m = 1usize << 20;
+            let mut sets: Vec<Vec<usize>> = vec![vec![4 * m, 100, 4 * m - 1, 4 * m + 1]];
+            if thorough {
+                sets.push(vec![m - 1, m, m + 1, 2 * m - 1, 2 * m, 2 * m + 1]);
+                sets.push(vec![8 * m - 1, 8 * m, 8 * m + 1]);
+                // the same as frame TOTALS (header and the 4/5-byte path included)
+                sets.push(vec![m - 53, 2 * m - 53, 4 * m - 53, 4 * m - 52, 8 * m - 53, 8 * m - 52]);
+                sets.push(vec![16 * m - 53, 16 * m, 100]);
+            }
+            for (j, set) in sets.into_iter().enumerate() {
+                let ws: Vec<Wr> = set.iter().map(|sz| w0(k, *sz)).collect();
+                // no stall worth speaking of in the first one, a stall inside the large body in the others
+                let (stall_at, stall_ms) = if j == 0 { (0, 0) } else { (3 * m as u64, 80) };
+                push(&mut v, Script { idx: String::new(), ep, buf: 0, rt: 2, chunk: 65536, stall_at, stall_ms, fault: Fault::None, opt: Default::default(), ws });
+            }
+        }
         // ---- third coverage audit
         {
             let w0 = |kind: char, size: usize| Wr { kind, size, ..Default::default() };
